@@ -293,3 +293,76 @@ def loops_of(paths: list[Path]) -> list[Loop]:
                 it = getattr(e.node, "iter", None)
                 e.riter = p.res(it, k) if it is not None else None  # type: ignore[attr-defined]
     return sorted(seen.values(), key=lambda l: getattr(l.node, "lineno", 0))
+
+
+def _helper_cases(h: ast.FunctionDef, call: ast.Call, pol: bool, is_method: bool) -> list[list[tuple[ast.AST, bool]]] | None:
+    """Conditions (as fact lists over the caller's expressions) under which predicate helper `h`, called as `call`,
+    evaluates to `pol`.  None when the helper is not a pure predicate this module can summarise."""
+    params = [a.arg for a in h.args.args]
+    if is_method:
+        params = params[1:]
+    if len(params) != len(call.args) or call.keywords or h.args.vararg or h.args.kwarg or h.args.kwonlyargs:
+        return None
+    env = dict(zip(params, call.args))
+    cases = []
+    try:
+        hp = enum_paths(h)
+    except AnalysisError:
+        return None
+    for p in hp:
+        if p.end == "raise":
+            continue
+        if p.end != "return" or p.value is None:
+            return None
+        if any(isinstance(e, Loop) for e in p.effects):
+            return None
+        facts = [(subst(t, env), q) for t, q in p.rfacts]
+        v = ast.parse(p.rvalue(), mode="eval").body
+        if isinstance(v, ast.Constant) and isinstance(v.value, bool):
+            if v.value == pol:
+                cases.append(facts)
+        else:
+            vv = subst(v, env)
+            cs = conjuncts(vv, pol)
+            if len(cs) == 1 and isinstance(cs[0][0], ast.BoolOp):
+                # a disjunction: one case per disjunct
+                b = cs[0][0]
+                wanted = cs[0][1]
+                if (isinstance(b.op, ast.Or) and wanted) or (isinstance(b.op, ast.And) and not wanted):
+                    for d in b.values:
+                        cases.append(facts + conjuncts(d, wanted))
+                    continue
+            cases.append(facts + cs)
+    return cases
+
+
+def expand_predicates(paths: list[Path], helpers: dict[str, tuple[ast.FunctionDef, bool]], depth: int = 3) -> list[Path]:
+    """Replace facts of the form `self._helper(args)` / `_helper(args)` (private predicate helpers given in
+    `helpers`: name -> (def, is_method)) by the conditions under which the helper returns that truth value; a helper
+    that can return it in several ways splits the path.  Also splits true disjunctions / false conjunctions."""
+    out: list[Path] = []
+    work = [(p, depth * 4) for p in paths]
+    while work:
+        p, fuel = work.pop()
+        done = True
+        if fuel > 0:
+            for i, (t, pol) in enumerate(p.rfacts):
+                cases = None
+                if isinstance(t, ast.Call):
+                    nm = t.func.attr if isinstance(t.func, ast.Attribute) and isinstance(t.func.value, ast.Name) else t.func.id if isinstance(t.func, ast.Name) else None
+                    if nm in helpers:
+                        cases = _helper_cases(helpers[nm][0], t, pol, helpers[nm][1])
+                elif isinstance(t, ast.BoolOp) and ((isinstance(t.op, ast.Or) and pol) or (isinstance(t.op, ast.And) and not pol)):
+                    cases = [conjuncts(d, pol) for d in t.values]
+                if cases is not None:
+                    for c in cases:
+                        q = p.fork()
+                        q.rfacts = p.rfacts[:i] + list(c) + p.rfacts[i + 1:]
+                        work.append((q, fuel - 1))
+                    done = False
+                    break
+        if done:
+            out.append(p)
+        if len(out) + len(work) > LIMIT:
+            raise AnalysisError("predicate expansion: too many cases")
+    return out
